@@ -378,7 +378,7 @@ func pkgReachGo(fn *ssa.Function, depth int) []*ssa.Function {
 
 func runR16(c *core.Ctx) {
 	dec := c.P.Func("protocol/binprot", "DecodeError")
-	enc := c.P.Func("protocol/binprot", "errorToCode")
+	enc := findFunc(c, "protocol/binprot", "errorToCode", roleStatusEncoder)
 	txt := c.P.Func("protocol/textprot", "(TextResponder).Error")
 	if dec == nil || enc == nil || txt == nil {
 		c.Undecided("R1.6", "status-tables", "-", "DecodeError, errorToCode or TextResponder.Error not found")
@@ -727,7 +727,7 @@ func runR19(c *core.Ctx) {
 	binWant := map[string]int64{"Set": 0x01, "Add": 0x02, "Replace": 0x03, "Append": 0x0e, "Prepend": 0x0f, "Delete": 0x04, "Touch": 0x1c,
 		"Get": 0x00, "GAT": 0x1d, "GetE": 0x40, "GetEnd": 0x0a, "Noop": 0x0a, "Quit": 0x07, "Version": 0x0b, "Stat": 0x10}
 	bn := c.P.Named("protocol/binprot", "BinaryResponder")
-	hw := c.P.Func("protocol/binprot", "writeSuccessResponseHeader")
+	hw := findFunc(c, "protocol/binprot", "writeSuccessResponseHeader", roleSuccessHeaderWriter)
 	if bn == nil || hw == nil {
 		c.Undecided("R1.9", "binprot.BinaryResponder", "-", "not found")
 		return
